@@ -13,6 +13,16 @@ Theorem C04_block_confluence : forall fuel1 fuel2 p s B h o1 o2,
 Proof. exact block_confluence. Qed.
 Print Assumptions C04_block_confluence.
 
+(** The same with node functions that call Var.Set / Var.Update (no faults): [sets_ok] says that
+    the pass is running, that the functions of the block only set vars, and that no var is set by
+    two different nodes of the block (the user's functions are race free among themselves). *)
+Theorem C04_block_confluence_sets : forall fuel1 fuel2 p s B h o1 o2,
+  block_ok s B h -> graph_ok s -> sets_ok p s B -> o1 ≡ₚ B -> o2 ≡ₚ B ->
+  exists r1 r2, run_block fuel1 p s o1 = Ok r1 /\ run_block fuel2 p s o2 = Ok r2 /\
+                sim_blk r1 r2 /\ r1.1.2 = None.
+Proof. exact block_confluence_sets. Qed.
+Print Assumptions C04_block_confluence_sets.
+
 (** Pass level, bind-free graphs: whatever order each block is processed in. *)
 Theorem C04_pass_schedule_independent : forall sched1 sched2 p s t e,
   fair sched1 -> fair sched2 -> quiet_all p -> pass_ok s ->
@@ -67,4 +77,146 @@ Example C04_ex_block_orders_differ :
 Proof.
   do 5 eexists. split; [vm_compute; reflexivity|]. split; [vm_compute; reflexivity|].
   split; [vm_compute; reflexivity|]. vm_compute. discriminate.
+Qed.
+
+Theorem C04_sets_okb_sound : forall p s B, sets_okb p s B = true -> sets_ok p s B.
+Proof. exact sets_okb_sound. Qed.
+
+Example C04_ex_sets_hyps :
+  exists s, ex_mid = Ok (s, [2; 3]%nat) /\ sets_ok ex_plan s [2; 3]%nat /\
+            targets (nodeActs ex_plan s 2%nat) = [0%nat] /\ targets (nodeActs ex_plan s 3%nat) = [1%nat].
+Proof.
+  eexists. split; [vm_compute; reflexivity|]. split; [apply sets_okb_sound; vm_compute; reflexivity|].
+  split; vm_compute; reflexivity.
+Qed.
+
+(** * Footprints and lock sets (the race-freedom logic) *)
+
+(** what the model's recompute of [n] does not declare as written, it does not change *)
+Theorem C04_footprints_sound : forall s n s1 e, rnp_spec s n = Ok (s1, e) ->
+  (forall x f, not_written (footprint s n) (LNode x f) -> field_same f s s1 x) /\
+  (not_written (footprint s n) LHeap -> heap s1 = heap s) /\
+  (not_written (footprint s n) LHandlers -> handlers s1 = handlers s) /\
+  binds s1 = binds s /\ next s1 = next s /\ reg s1 = reg s /\ obs s1 = obs s /\ adj s1 = adj s /\
+  invq s1 = invq s /\ stabNum s1 = stabNum s /\ status s1 = status s /\ numNodes s1 = numNodes s /\
+  setDuring s1 = setDuring s /\ setRemoved s1 = setRemoved s /\ maxHeight s1 = maxHeight s.
+Proof. exact fp_write_sound. Qed.
+Print Assumptions C04_footprints_sound.
+
+(** [rnp_spec] IS the model function on the nodes concerned *)
+Theorem C04_footprints_model : forall fuel p s n,
+  is_Some (nodes s !! n) -> is_lhs (nkind (nd s n)) = false -> (forall w, actions_of p n w = []) ->
+  recomputeNodeParallel fuel p s n = rnp_spec s n.
+Proof. exact rnp_char. Qed.
+Print Assumptions C04_footprints_model.
+
+(** what it does not declare as read does not matter: the lock-free section ... *)
+Theorem C04_footprints_reads_free : forall s t n,
+  nd t n = nd s n -> stabNum t = stabNum s -> binds t = binds s -> same_shape s t ->
+  (forall x, Rd (LNode x FValue) [] ∈ fp_free s n -> value (nd t x) = value (nd s x)) ->
+  cutv t n = cutv s n /\ newval t n = newval s n /\ localEvs t n = localEvs s n /\
+  forall y, localF t n y = localF s n y.
+Proof. exact fp_read_sound_free. Qed.
+
+(** ... and the children scan under recomputeMu *)
+Theorem C04_footprints_reads_child : forall t t' c,
+  nd t' c = nd t c -> stabNum t' = stabNum t ->
+  (readsParents t c = true -> forall q, q ∈ parents (nd t c) -> changedAt (nd t' q) = changedAt (nd t q)) ->
+  wantPush t' c = wantPush t c.
+Proof. exact fp_read_sound_child. Qed.
+
+(** Lock sets, success paths: every pair of conflicting accesses of two different nodes of a block
+    is covered by a common lock, except one shape of pair: a node's lock-free write of its own
+    changedAt (graph.go:1243) against the read of that field by a sibling's children scan, which
+    holds recomputeMu (shouldRecomputeChild -> isStale -> isStaleInRespectToParent). *)
+Theorem C04_lockset : forall s B h n m a b,
+  block_ok s B h -> graph_ok s -> n ∈ B -> m ∈ B -> n <> m ->
+  a ∈ footprint s n -> b ∈ footprint s m -> conflict a b ->
+  covered a b \/ stale_pair a b n \/ stale_pair b a m.
+Proof. exact lockset. Qed.
+Print Assumptions C04_lockset.
+
+(** that pair needs a common child which is a bind main node or was already recomputed in the
+    running pass; without such children everything is covered *)
+Theorem C04_lockset_fresh : forall s B h n m a b,
+  block_ok s B h -> graph_ok s -> n ∈ B -> m ∈ B -> n <> m ->
+  (forall x c, x ∈ B -> c ∈ children (nd s x) ->
+     recomputedAt (nd s c) < stabNum s /\ forall bb, nkind (nd s c) <> KBindMain bb) ->
+  a ∈ footprint s n -> b ∈ footprint s m -> conflict a b -> covered a b.
+Proof. exact lockset_fresh. Qed.
+Print Assumptions C04_lockset_fresh.
+
+(** NOT covered according to the lock placement of graph.go (candidates for the race detector):
+    1. recomputeFailed / recomputePanicked -> recomputeHeap.addIfNotPresent takes the heap's own
+       mutex, the children scan of a sibling calls addNodeUnsafe under recomputeMu only *)
+Theorem C04_lockset_refuted_candidate : forall s n m, pushlist s m <> [] ->
+  exists a b, a ∈ fp_fail n /\ b ∈ footprint s m /\ conflict a b /\ ~ covered a b.
+Proof. exact lockset_refuted_heap. Qed.
+Print Assumptions C04_lockset_refuted_candidate.
+
+(**  2. Var.Set called by a node function writes setDuringStabilization(Value) with no lock; the
+        var's own Stabilize reads it with no lock when the var is recomputed in the same block *)
+Theorem C04_lockset_refuted_candidate_pending : forall s v, isVarKind (nkind (nd s v)) = true ->
+  exists a b, a ∈ fp_set v /\ b ∈ footprint s v /\ conflict a b /\ ~ covered a b.
+Proof. exact lockset_refuted_pending. Qed.
+
+Example C04_ex_lockset_candidate_reachable :
+  exists s, ex_mid = Ok (s, [2; 3]%nat) /\ pushlist s 2%nat <> [].
+Proof. eexists. split; [vm_compute; reflexivity|]. vm_compute. discriminate. Qed.
+
+(** * The bind case *)
+(* C04_full (NOT proved, and false as stated with ≈): "for every state reached by a history and
+   every fair scheduler, parStabilizeS sched p s ≈ parStabilize p s".  Two things stand in the way:
+   (1) the model identifies nodes by creation index, and two lhs-change nodes of one block run in
+   queue order, which is the order the previous block's workers queued them in: the ids of the nodes
+   a bind creates depend on the schedule (C04_bind_ids_depend_on_schedule); observer values and
+   update events agreed on every generated history; (2) the invariants [block_ok]/[graph_ok] after
+   a lhs-change prefix are not proved (they held after every prefix of every generated history, so
+   [C04_block_confluence] applied to the rest of every such block). *)
+
+(** by construction: the lhs-change nodes of a block run first, one at a time, in queue order,
+    whatever the scheduler; the scheduler orders the rest, which contains no lhs-change node *)
+Theorem C04_bind_prefix_sequential : forall sched fuel p s al,
+  parLoopS sched (S fuel) p s al =
+  if Heap.cnt (heap s) <=? 0 then Ok (s, None, al) else
+  let '(block, w) := Heap.takeMinBlock (heap s) in
+  let s := s <| heap := w |> in
+  r0 <-! run_block_acc fuel p s al (lhs_part s block);
+  '(s', e, al') <-! rfold (block_step fuel p) (sched s (rest_part s block)) r0;
+  match e with
+  | Some _ => Ok (s', e, al')
+  | None => parLoopS sched fuel p s' al'
+  end.
+Proof. exact bind_prefix_sequential. Qed.
+
+Theorem C04_rest_has_no_lhs : forall sched s block n, fair sched ->
+  n ∈ sched s (rest_part s block) -> isLhsNode s n = false /\ n ∈ block.
+Proof. exact rest_part_no_lhs. Qed.
+
+Theorem C04_model_is_queue_order : forall p s, parStabilizeS queue_order p s = parStabilize p s.
+Proof. exact parStabilizeS_queue_order. Qed.
+Print Assumptions C04_model_is_queue_order.
+
+(** the finding the fix "ParallelStabilize runs a block's structural nodes first and skips nodes
+    they tear down" answers: with the whole block handed out in one batch, one order of the block
+    [4; 2] (two lhs-change nodes, the first tearing the second down) ends in the library's index
+    out of range [-1], the other order is fine *)
+Example C04_old_order_refuted :
+  exists s t, w_state = Ok s /\ fair queue_order /\ fair sw_sched /\
+    parStabilizeS_old queue_order [] s = Crash IndexOutOfRange /\
+    parStabilizeS_old sw_sched [] s = Ok (t, None).
+Proof.
+  do 2 eexists. split; [vm_compute; reflexivity|]. split; [exact queue_order_fair|].
+  split; [exact sw_sched_fair|]. split; vm_compute; reflexivity.
+Qed.
+
+(** after the fix both orders succeed with the same observer values; the node ids differ *)
+Example C04_bind_ids_depend_on_schedule :
+  exists s t1 t2, w_state = Ok s /\ fair queue_order /\ fair rev_sched /\
+    parStabilizeS queue_order [] s = Ok (t1, None) /\ parStabilizeS rev_sched [] s = Ok (t2, None) /\
+    obsValues t1 = obsValues t2 /\ reg t1 <> reg t2.
+Proof.
+  do 3 eexists. split; [vm_compute; reflexivity|]. split; [exact queue_order_fair|].
+  split; [exact rev_sched_fair|]. split; [vm_compute; reflexivity|]. split; [vm_compute; reflexivity|].
+  split; vm_compute; [reflexivity|discriminate].
 Qed.
